@@ -422,6 +422,11 @@ static void part_flips(void) {
 }
 
 /* ------------------------------------------------------------------ (c) lookups */
+/* the result variable of a lookup is handed in holding a stale non-NULL value (a variable reused across a series of queries): "nothing
+ * found" must come back as NULL, not as whatever the variable held */
+static char stale_obj[64];
+#define STALE ((KSI_PublicationRecord *)(void *)stale_obj)
+#define FOUND(r) ((r) != NULL && (r) != STALE)
 static void part_lookup(void) {
 	int maxlen = VF_THOROUGH ? 4 : 3, len;
 	KSI_CTX *ctx = NULL;
@@ -450,7 +455,7 @@ static void part_lookup(void) {
 			if (KSI_PublicationsFile_parse(ctx, b.p, b.n, &pf) != KSI_OK) { vf_fail("valid-file-refused", "lookup file refused"); vb_free(&b); vf_case_end(1); continue; }
 			for (q = -1; q <= 6; q++) {
 				KSI_Integer *qi = NULL;
-				KSI_PublicationRecord *r = NULL;
+				KSI_PublicationRecord *r = STALE;
 				int res, have, k;
 				uint64_t best;
 				if (q >= 0) KSI_Integer_new(ctx, (uint64_t)q, &qi);
@@ -459,27 +464,31 @@ static void part_lookup(void) {
 					res = KSI_PublicationsFile_getPublicationDataByTime(pf, qi, &r);
 					vf_count("impl_calls", 1);
 					have = 0; for (k = 0; k < len; k++) if (f.pub_time[k] == (uint64_t)q) have = 1;
-					if (res != KSI_OK || (r != NULL) != have) vf_fail("lookup-by-time", "times %s query %d: res 0x%x found=%d expected=%d", name, q, res, r != NULL, have);
-					else if (r) { KSI_PublicationData *pd = NULL; KSI_Integer *t = NULL; KSI_PublicationRecord_getPublishedData(r, &pd); KSI_PublicationData_getTime(pd, &t); if (KSI_Integer_getUInt64(t) != (uint64_t)q) vf_fail("lookup-by-time", "times %s query %d returned time %llu", name, q, (unsigned long long)KSI_Integer_getUInt64(t)); }
-					r = NULL;
+					if (res != KSI_OK || FOUND(r) != have) vf_fail("lookup-by-time", "times %s query %d: res 0x%x found=%d expected=%d", name, q, res, FOUND(r), have);
+					else if (FOUND(r)) { KSI_PublicationData *pd = NULL; KSI_Integer *t = NULL; KSI_PublicationRecord_getPublishedData(r, &pd); KSI_PublicationData_getTime(pd, &t); if (KSI_Integer_getUInt64(t) != (uint64_t)q) vf_fail("lookup-by-time", "times %s query %d returned time %llu", name, q, (unsigned long long)KSI_Integer_getUInt64(t)); }
+					if (r == STALE) vf_fail("lookup-stale-result", "times %s query %d: KSI_PublicationsFile_getPublicationDataByTime left the caller's stale value in the result variable", name, q);
+					r = NULL;       /* this (undocumented) function writes the result variable only when it finds a record: the caller clears it */
 					res = KSI_PublicationsFile_findPublicationByTime(pf, qi, &r);
 					vf_count("impl_calls", 1);
-					if (res != KSI_OK || (r != NULL) != have) vf_fail("find-by-time", "times %s query %d: res 0x%x found=%d expected=%d", name, q, res, r != NULL, have);
-					KSI_PublicationRecord_free(r); r = NULL;
+					if (res != KSI_OK || FOUND(r) != have) vf_fail("find-by-time", "times %s query %d: res 0x%x found=%d expected=%d", name, q, res, FOUND(r), have);
+					if (r == STALE) { vf_fail("lookup-stale-result", "times %s query %d: KSI_PublicationsFile_findPublicationByTime left the caller's stale value in the result variable", name, q); r = NULL; }
+					KSI_PublicationRecord_free(r); r = STALE;
 					/* earliest publication not before q */
 					res = KSI_PublicationsFile_getNearestPublication(pf, qi, &r);
 					vf_count("impl_calls", 1);
 					have = 0; best = 0; for (k = 0; k < len; k++) if (f.pub_time[k] >= (uint64_t)q && (!have || f.pub_time[k] < best)) { have = 1; best = f.pub_time[k]; }
-					if (res != KSI_OK || (r != NULL) != have) vf_fail("lookup-nearest", "times %s query %d: res 0x%x found=%d expected=%d", name, q, res, r != NULL, have);
-					else if (r) { KSI_PublicationData *pd = NULL; KSI_Integer *t = NULL; KSI_PublicationRecord_getPublishedData(r, &pd); KSI_PublicationData_getTime(pd, &t); if (KSI_Integer_getUInt64(t) != best) vf_fail("lookup-nearest", "times %s query %d returned time %llu, expected %llu", name, q, (unsigned long long)KSI_Integer_getUInt64(t), (unsigned long long)best); }
-					KSI_PublicationRecord_free(r); r = NULL;
+					if (res != KSI_OK || FOUND(r) != have) vf_fail("lookup-nearest", "times %s query %d: res 0x%x found=%d expected=%d", name, q, res, FOUND(r), have);
+					else if (FOUND(r)) { KSI_PublicationData *pd = NULL; KSI_Integer *t = NULL; KSI_PublicationRecord_getPublishedData(r, &pd); KSI_PublicationData_getTime(pd, &t); if (KSI_Integer_getUInt64(t) != best) vf_fail("lookup-nearest", "times %s query %d returned time %llu, expected %llu", name, q, (unsigned long long)KSI_Integer_getUInt64(t), (unsigned long long)best); }
+					if (r == STALE) { vf_fail("lookup-stale-result", "times %s query %d: KSI_PublicationsFile_getNearestPublication left the caller's stale value in the result variable", name, q); r = NULL; }
+					KSI_PublicationRecord_free(r); r = STALE;
 				}
 				/* latest publication (not before q when given) */
 				res = KSI_PublicationsFile_getLatestPublication(pf, qi, &r);
 				vf_count("impl_calls", 1);
 				have = 0; best = 0; for (k = 0; k < len; k++) if ((q < 0 || f.pub_time[k] >= (uint64_t)q) && (!have || f.pub_time[k] > best)) { have = 1; best = f.pub_time[k]; }
-				if (res != KSI_OK || (r != NULL) != have) vf_fail("lookup-latest", "times %s query %d: res 0x%x found=%d expected=%d", name, q, res, r != NULL, have);
-				else if (r) { KSI_PublicationData *pd = NULL; KSI_Integer *t = NULL; KSI_PublicationRecord_getPublishedData(r, &pd); KSI_PublicationData_getTime(pd, &t); if (KSI_Integer_getUInt64(t) != best) vf_fail("lookup-latest", "times %s query %d returned time %llu, expected %llu", name, q, (unsigned long long)KSI_Integer_getUInt64(t), (unsigned long long)best); }
+				if (res != KSI_OK || FOUND(r) != have) vf_fail("lookup-latest", "times %s query %d: res 0x%x found=%d expected=%d", name, q, res, FOUND(r), have);
+				else if (FOUND(r)) { KSI_PublicationData *pd = NULL; KSI_Integer *t = NULL; KSI_PublicationRecord_getPublishedData(r, &pd); KSI_PublicationData_getTime(pd, &t); if (KSI_Integer_getUInt64(t) != best) vf_fail("lookup-latest", "times %s query %d returned time %llu, expected %llu", name, q, (unsigned long long)KSI_Integer_getUInt64(t), (unsigned long long)best); }
+				if (r == STALE) vf_fail("lookup-stale-result", "times %s query %d: KSI_PublicationsFile_getLatestPublication left the caller's stale value in the result variable (nothing %s)", name, q, have ? "was returned although a publication qualifies" : "qualifies: NULL expected");
 				vf_outcome("lookup:%s", have ? "found" : "absent");
 				KSI_Integer_free(qi);
 			}
